@@ -40,7 +40,19 @@ const (
 	// guaranteed block time used by the block-height fallback (x/feeds/types/constant.go and README)
 	guaranteeBlockTime = int64(3)
 	nVals              = 3
+	// every time in the reference model is a full-precision unix time in nanoseconds
+	sec = int64(time.Second)
 )
+
+// ts prints a model time as unix seconds (with milliseconds when it is not on a whole second).
+func ts(ns int64) string {
+	if ns%sec == 0 {
+		return strconv.FormatInt(ns/sec, 10)
+	}
+	return fmt.Sprintf("%d.%03d", ns/sec, (ns%sec)/int64(time.Millisecond))
+}
+
+func (p pRec) String() string { return fmt.Sprintf("{%s h%d}", ts(p.T), p.H) }
 
 type sig struct {
 	ID string
@@ -63,13 +75,16 @@ var voteMenu = [][]sig{
 // Cfg is one configuration (one search).
 type Cfg struct {
 	Name     string  `json:"name"`
-	Vals     []int   `json:"validators"`             // validators the alphabet acts on
-	PreAct   []int   `json:"pre_activated"`          // activated in the base state (at its block time)
-	PrePrice []int   `json:"pre_priced,omitempty"`   // of those: submitted a price for every current feed in the base state
-	MaxIv    int64   `json:"max_interval,omitempty"` // feeds MaxInterval; 0 = 12 s
-	InitVote int     `json:"initial_vote"`           // index into voteMenu, current at the base state
-	Votes    []int   `json:"votes"`                  // vote events offered
-	Phase    int     `json:"phase"`                  // extra 3-second blocks after the base update block (height 4)
+	Vals     []int   `json:"validators"`                      // validators the alphabet acts on
+	PreAct   []int   `json:"pre_activated"`                   // activated in the base state (at its block time)
+	PrePrice []int   `json:"pre_priced,omitempty"`            // of those: submitted a price for every current feed in the base state
+	MaxIv    int64   `json:"max_interval,omitempty"`          // feeds MaxInterval; 0 = 12 s
+	Penalty  int64   `json:"penalty_seconds,omitempty"`       // oracle InactivePenaltyDuration; 0 = 10 s
+	BaseMs   int64   `json:"base_offset_ms,omitempty"`        // sub-second part of the base state's block time (last base block is 3 s + this)
+	DtsMs    []int64 `json:"block_dt_milliseconds,omitempty"` // additional block events "blockms:N"
+	InitVote int     `json:"initial_vote"`                    // index into voteMenu, current at the base state
+	Votes    []int   `json:"votes"`                           // vote events offered
+	Phase    int     `json:"phase"`                           // extra 3-second blocks after the base update block (height 4)
 	Exp      uint64  `json:"expiration_blocks"`
 	MaxReq   int     `json:"max_requests"`
 	MaxVote  int     `json:"max_votes"`
@@ -89,7 +104,7 @@ type pRec struct{ T, H int64 } // last accepted submission of one signal: block 
 
 type vState struct {
 	Active    bool
-	Since     int64 // time of the last change (unix s); meaningful when Active or EverDeact
+	Since     int64 // time of the last change (unix ns); meaningful when Active or EverDeact
 	EverDeact bool
 	DeactAt   int64
 	Prices    map[string]pRec
@@ -171,6 +186,14 @@ func (m *model) Key() string {
 
 // feedsFromVote: README "Feed Interval": a signal is a current feed when its total power reaches
 // PowerStepThreshold; interval = max(MinInterval, floor(MaxInterval / floor(power/step))).
+// pen is the inactivity penalty of this configuration in nanoseconds.
+func (s *spec) pen() int64 {
+	if s.cfg.Penalty > 0 {
+		return s.cfg.Penalty * sec
+	}
+	return penalty * sec
+}
+
 func (s *spec) maxIv() int64 {
 	if s.cfg.MaxIv > 0 {
 		return s.cfg.MaxIv
@@ -204,17 +227,17 @@ func (s *spec) feedsFromVote(vote int) []feed {
 //	price-blocks         ... by the block-height fallback (interval/3 blocks)
 func (m *model) feedClauses(f feed, v *vState, now, h int64) []string {
 	var c []string
-	if !(now > v.Since+grace) {
+	if !(now > v.Since+grace*sec) {
 		c = append(c, "activation-grace")
 	}
-	if !(now > m.LastUpdT+grace) {
+	if !(now > m.LastUpdT+grace*sec) {
 		c = append(c, "update-grace-time")
 	}
 	if !(h > m.LastUpdH+grace/guaranteeBlockTime) {
 		c = append(c, "update-grace-blocks")
 	}
 	if p, ok := v.Prices[f.ID]; ok {
-		if !(now > p.T+f.Interval) {
+		if !(now > p.T+f.Interval*sec) {
 			c = append(c, "price-time")
 		}
 		if !(h > p.H+f.Interval/guaranteeBlockTime) {
@@ -250,7 +273,7 @@ func (s *spec) Build(w *engine.World) (sdk.Context, engine.Model) {
 		panic(err)
 	}
 	op := w.App.OracleKeeper.GetParams(ctx)
-	op.InactivePenaltyDuration = uint64(time.Duration(penalty) * time.Second)
+	op.InactivePenaltyDuration = uint64(s.pen())
 	op.ExpirationBlockCount = s.cfg.Exp
 	if err := w.App.OracleKeeper.SetParams(ctx, op); err != nil {
 		panic(err)
@@ -274,11 +297,15 @@ func (s *spec) Build(w *engine.World) (sdk.Context, engine.Model) {
 	}
 	// blocks 2,3,4 end (4 is an update block), then cfg.Phase more; 3 s each
 	for i := 0; i < 3+s.cfg.Phase; i++ {
-		h, now := ctx.BlockHeight(), ctx.BlockTime().Unix()
+		h, now := ctx.BlockHeight(), ctx.BlockTime().UnixNano()
 		if h%updateEvery == 0 {
 			m.Feeds, m.LastUpdT, m.LastUpdH = s.feedsFromVote(m.Vote), now, h
 		}
-		next, br := w.Block(ctx, 1, 3*time.Second)
+		dt := 3 * time.Second
+		if i == 3+s.cfg.Phase-1 {
+			dt += time.Duration(s.cfg.BaseMs) * time.Millisecond
+		}
+		next, br := w.Block(ctx, 1, dt)
 		if br.Halt != "" {
 			panic("base block: " + br.Halt)
 		}
@@ -288,15 +315,15 @@ func (s *spec) Build(w *engine.World) (sdk.Context, engine.Model) {
 		if r := w.Tx(ctx, 0, oracletypes.NewMsgActivate(bandtesting.Validators[i].ValAddress)); !r.OK() {
 			panic("activate: " + r.Err.Error())
 		}
-		m.V[i].Active, m.V[i].Since = true, ctx.BlockTime().Unix()
+		m.V[i].Active, m.V[i].Since = true, ctx.BlockTime().UnixNano()
 	}
 	for _, i := range s.cfg.PrePrice {
 		var sps []feedstypes.SignalPrice
 		for _, f := range m.Feeds {
 			sps = append(sps, feedstypes.NewSignalPrice(feedstypes.SIGNAL_PRICE_STATUS_AVAILABLE, f.ID, 1000))
-			m.V[i].Prices[f.ID] = pRec{T: ctx.BlockTime().Unix(), H: ctx.BlockHeight()}
+			m.V[i].Prices[f.ID] = pRec{T: ctx.BlockTime().UnixNano(), H: ctx.BlockHeight()}
 		}
-		if r := w.Tx(ctx, 0, feedstypes.NewMsgSubmitSignalPrices(bandtesting.Validators[i].ValAddress.String(), ctx.BlockTime().Unix(), sps)); !r.OK() {
+		if r := w.Tx(ctx, 0, feedstypes.NewMsgSubmitSignalPrices(bandtesting.Validators[i].ValAddress.String(), ctx.BlockTime().Unix(), sps)); !r.OK() { // message timestamp: whole seconds
 			panic("base prices: " + r.Err.Error())
 		}
 	}
@@ -316,8 +343,8 @@ func (s *spec) compare(w *engine.World, ctx sdk.Context, m *model) string {
 			return fmt.Sprintf("status: validator %d chain active=%v model active=%v", i, st.IsActive, mv.Active)
 		}
 		if mv.Active || mv.EverDeact {
-			if st.Since.Unix() != mv.Since || st.Since.Nanosecond() != 0 {
-				return fmt.Sprintf("since: validator %d chain since=%d model since=%d", i, st.Since.Unix(), mv.Since)
+			if st.Since.UnixNano() != mv.Since {
+				return fmt.Sprintf("since: validator %d chain since=%s model since=%s", i, ts(st.Since.UnixNano()), ts(mv.Since))
 			}
 		} else if !st.Since.IsZero() {
 			return fmt.Sprintf("since: validator %d never changed but chain since=%v", i, st.Since)
@@ -329,8 +356,8 @@ func (s *spec) compare(w *engine.World, ctx sdk.Context, m *model) string {
 		got = append(got, feed{f.SignalID, f.Interval})
 	}
 	sort.Slice(got, func(i, j int) bool { return got[i].ID < got[j].ID })
-	if fmt.Sprint(got) != fmt.Sprint(m.Feeds) || cf.LastUpdateTimestamp != m.LastUpdT || cf.LastUpdateBlock != m.LastUpdH {
-		return fmt.Sprintf("feeds: chain %v upd %d/%d, model %v upd %d/%d", got, cf.LastUpdateTimestamp, cf.LastUpdateBlock, m.Feeds, m.LastUpdT, m.LastUpdH)
+	if fmt.Sprint(got) != fmt.Sprint(m.Feeds) || cf.LastUpdateTimestamp != m.LastUpdT/sec || cf.LastUpdateBlock != m.LastUpdH {
+		return fmt.Sprintf("feeds: chain %v upd %d/%d, model %v upd %s/%d", got, cf.LastUpdateTimestamp, cf.LastUpdateBlock, m.Feeds, ts(m.LastUpdT), m.LastUpdH)
 	}
 	return ""
 }
@@ -388,6 +415,9 @@ func (s *spec) Enabled(w *engine.World, ctx sdk.Context, mm engine.Model, depth 
 	for _, dt := range s.cfg.Dts {
 		evs = append(evs, fmt.Sprintf("block:%d", dt))
 	}
+	for _, dt := range s.cfg.DtsMs {
+		evs = append(evs, fmt.Sprintf("blockms:%d", dt))
+	}
 	return evs
 }
 
@@ -396,25 +426,30 @@ func (s *spec) Step(w *engine.World, ctx sdk.Context, mm engine.Model, ev string
 	var st engine.StepResult
 	parts := strings.Split(ev, ":")
 	ok := w.App.OracleKeeper
-	now, h := ctx.BlockTime().Unix(), ctx.BlockHeight()
+	now, h := ctx.BlockTime().UnixNano(), ctx.BlockHeight()
 	switch parts[0] {
 	case "act":
 		i, _ := strconv.Atoi(parts[1])
 		v := &m.V[i]
 		res := w.Tx(ctx, 0, oracletypes.NewMsgActivate(bandtesting.Validators[i].ValAddress))
-		permitted := !v.Active && (!v.EverDeact || now >= v.DeactAt+penalty)
+		pen := s.pen()
+		permitted := !v.Active && (!v.EverDeact || now >= v.DeactAt+pen)
 		if res.OK() {
 			switch {
 			case v.Active:
-				st.Violate("activate-accepted:already-active", "%s accepted at t=%d although validator %d is active since %d", ev, now, i, v.Since)
+				st.Violate("activate-accepted:already-active", "%s accepted at t=%s although validator %d is active since %s", ev, ts(now), i, ts(v.Since))
 				return ctx, st
 			case !permitted:
-				st.Violate("activate-accepted:before-penalty-elapsed", "%s accepted at t=%d, validator %d was deactivated at %d, penalty %d s (earliest %d)", ev, now, i, v.DeactAt, penalty, v.DeactAt+penalty)
+				fp := "activate-accepted:before-penalty-elapsed"
+				if now/sec-v.DeactAt/sec >= pen/sec {
+					fp += ":whole-seconds-elapsed-but-not-full-time"
+				}
+				st.Violate(fp, "%s accepted at t=%s, validator %d was deactivated at %s, penalty %d s (earliest %s)", ev, ts(now), i, ts(v.DeactAt), pen/sec, ts(v.DeactAt+pen))
 				return ctx, st
 			}
 			if v.EverDeact {
 				st.Outcome = "act:ok:after-penalty"
-				if now == v.DeactAt+penalty {
+				if now == v.DeactAt+pen {
 					st.Saw("act:ok:exactly-at-penalty-end")
 				}
 			} else {
@@ -426,8 +461,14 @@ func (s *spec) Step(w *engine.World, ctx sdk.Context, mm engine.Model, ev string
 			if permitted {
 				// the statement does not oblige the chain to accept; recorded, not asserted
 				st.Saw("act:rejected-although-permitted:" + res.ErrName())
-			} else if !v.Active && now == v.DeactAt+penalty-1 {
-				st.Saw("act:rejected:one-second-before-penalty-end")
+			} else if !v.Active {
+				if now == v.DeactAt+pen-sec {
+					st.Saw("act:rejected:one-second-before-penalty-end")
+				}
+				if now/sec-v.DeactAt/sec >= pen/sec {
+					// the penalty has elapsed on truncated unix seconds but not in full precision
+					st.Saw("act:rejected:less-than-a-second-before-penalty-end")
+				}
 			}
 		}
 	case "req":
@@ -495,7 +536,7 @@ func (s *spec) Step(w *engine.World, ctx sdk.Context, mm engine.Model, ev string
 			}
 			sps = append(sps, feedstypes.NewSignalPrice(feedstypes.SIGNAL_PRICE_STATUS_AVAILABLE, f.ID, 1000))
 		}
-		res := w.Tx(ctx, 0, feedstypes.NewMsgSubmitSignalPrices(bandtesting.Validators[i].ValAddress.String(), now, sps))
+		res := w.Tx(ctx, 0, feedstypes.NewMsgSubmitSignalPrices(bandtesting.Validators[i].ValAddress.String(), now/sec, sps))
 		st.Outcome = "price:" + parts[2] + ":" + res.ErrName()
 		m.NPrice++
 		if res.OK() {
@@ -513,20 +554,23 @@ func (s *spec) Step(w *engine.World, ctx sdk.Context, mm engine.Model, ev string
 		}
 	case "block":
 		dt, _ := strconv.ParseInt(parts[1], 10, 64)
-		return s.block(w, ctx, m, ev, dt)
+		return s.block(w, ctx, m, ev, time.Duration(dt)*time.Second)
+	case "blockms":
+		dt, _ := strconv.ParseInt(parts[1], 10, 64)
+		return s.block(w, ctx, m, ev, time.Duration(dt)*time.Millisecond)
 	}
 	// Outside block ends nothing but a successful MsgActivate (already applied to the model above)
 	// may change any validator's status; the feed list never changes.
 	if d := s.compare(w, ctx, m); d != "" {
-		st.Violate("status-changed-outside-activate-or-block-end:"+parts[0]+":"+strings.SplitN(d, ":", 2)[0], "after %s at t=%d h=%d: %s", ev, now, h, d)
+		st.Violate("status-changed-outside-activate-or-block-end:"+parts[0]+":"+strings.SplitN(d, ":", 2)[0], "after %s at t=%s h=%d: %s", ev, ts(now), h, d)
 	}
 	return ctx, st
 }
 
 // block = EndBlock of the current block (time now, height h), then BeginBlock of the next.
-func (s *spec) block(w *engine.World, ctx sdk.Context, m *model, ev string, dt int64) (sdk.Context, engine.StepResult) {
+func (s *spec) block(w *engine.World, ctx sdk.Context, m *model, ev string, dt time.Duration) (sdk.Context, engine.StepResult) {
 	var st engine.StepResult
-	now, h := ctx.BlockTime().Unix(), ctx.BlockHeight()
+	now, h := ctx.BlockTime().UnixNano(), ctx.BlockHeight()
 	st.Outcome = "block"
 
 	// -- model, oracle clock: requests reaching their expiration height, in id order
@@ -553,7 +597,7 @@ func (s *spec) block(w *engine.World, ctx sdk.Context, m *model, ev string, dt i
 			case !(m.V[c].Since < r.Time):
 				vd[c].oracleSpare = append(vd[c].oracleSpare, "active-since-not-before-request")
 			default:
-				vd[c].oracleMiss = append(vd[c].oracleMiss, fmt.Sprintf("request %d (made t=%d h=%d, active since %d) expired unreported", r.ID, r.Time, r.Height, m.V[c].Since))
+				vd[c].oracleMiss = append(vd[c].oracleMiss, fmt.Sprintf("request %d (made t=%s h=%d, active since %s) expired unreported", r.ID, ts(r.Time), r.Height, ts(m.V[c].Since)))
 			}
 		}
 	}
@@ -603,7 +647,7 @@ func (s *spec) block(w *engine.World, ctx sdk.Context, m *model, ev string, dt i
 			if len(c) == 0 {
 				age := "no price ever"
 				if p, ok := v.Prices[f.ID]; ok {
-					age = fmt.Sprintf("last price t=%d h=%d", p.T, p.H)
+					age = fmt.Sprintf("last price t=%s h=%d", ts(p.T), p.H)
 				}
 				vd[i].feedsMiss = append(vd[i].feedsMiss, fmt.Sprintf("feed %s/%ds: %s", f.ID, f.Interval, age))
 			} else {
@@ -625,7 +669,7 @@ func (s *spec) block(w *engine.World, ctx sdk.Context, m *model, ev string, dt i
 		v := &m.V[i]
 		switch {
 		case !v.Active && post[i].IsActive:
-			st.Violate("active-without-activate-message", "validator %d became active in the block end at t=%d h=%d", i, now, h)
+			st.Violate("active-without-activate-message", "validator %d became active in the block end at t=%s h=%d", i, ts(now), h)
 		case v.Active && !post[i].IsActive:
 			if len(vd[i].oracleMiss) == 0 && len(vd[i].feedsMiss) == 0 && !outgoingMiss[i] {
 				why := ""
@@ -640,8 +684,8 @@ func (s *spec) block(w *engine.World, ctx sdk.Context, m *model, ev string, dt i
 					why += " feeds[" + fewest(vd[i].feedsSpare) + "]"
 				}
 				st.Violate("deactivated-without-genuine-miss:"+why,
-					"validator %d (active since %d) deactivated in the block end at t=%d h=%d; feeds=%v lastUpdate=%d/%d prices=%v expiring-request clauses=%v feed clauses=%v",
-					i, v.Since, now, h, m.Feeds, m.LastUpdT, m.LastUpdH, v.Prices, vd[i].oracleSpare, vd[i].feedsSpare)
+					"validator %d (active since %s) deactivated in the block end at t=%s h=%d; feeds=%v lastUpdate=%s/%d prices=%v expiring-request clauses=%v feed clauses=%v",
+					i, ts(v.Since), ts(now), h, m.Feeds, ts(m.LastUpdT), m.LastUpdH, v.Prices, vd[i].oracleSpare, vd[i].feedsSpare)
 				return ctx, st
 			}
 			switch {
@@ -682,7 +726,7 @@ func (s *spec) block(w *engine.World, ctx sdk.Context, m *model, ev string, dt i
 		}
 	}
 	if d := s.compare(w, ctx, m); d != "" {
-		st.Violate("block-end-projection-differs:"+strings.SplitN(d, ":", 2)[0], "after EndBlock at t=%d h=%d: %s", now, h, d)
+		st.Violate("block-end-projection-differs:"+strings.SplitN(d, ":", 2)[0], "after EndBlock at t=%s h=%d: %s", ts(now), h, d)
 		return ctx, st
 	}
 	// live requests of the model are exactly the stored ones (expiry itself is C01's subject; a
@@ -704,7 +748,7 @@ func (s *spec) block(w *engine.World, ctx sdk.Context, m *model, ev string, dt i
 		}
 	}
 
-	next, _, halt := w.BeginBlock(ctx, 1, time.Duration(dt)*time.Second)
+	next, _, halt := w.BeginBlock(ctx, 1, dt)
 	if halt != "" {
 		st.Violate("block-halt", "%s", halt)
 		return ctx, st
@@ -774,6 +818,11 @@ func configs(quick bool) []Cfg {
 			// in the list), prices for both already submitted, then partial submissions
 			{Name: "feeds-reorder", Vals: []int{0}, PreAct: []int{0}, PrePrice: []int{0}, InitVote: 5, Votes: []int{6}, Phase: 3, Exp: 2, MaxIv: 24,
 				MaxVote: 1, MaxPrice: 2, PriceOne: true, Dts: []int64{0, 1, 6}, Depth: 6},
+			// block times with a sub-second part (base state at x.9 s, steps of 1 s, 2 s and 500 ms), penalty
+			// 2 s: the request expires in a block at D = x.9 or x.4, activation is then attempted before,
+			// inside and after [floor(D)+penalty, D+penalty) and exactly at D+penalty
+			{Name: "penalty-subsecond", Vals: []int{0}, PreAct: []int{0}, InitVote: 0, Phase: 0, Exp: 1, Penalty: 2, BaseMs: 900, MaxReq: 1,
+				Dts: []int64{1, 2}, DtsMs: []int64{500}, Depth: 7},
 			{Name: "both", Vals: []int{0, 1}, PreAct: []int{1}, InitVote: 3, Votes: []int{4}, Phase: 1, Exp: 2, MaxReq: 1, MaxVote: 1, MaxPrice: 2, PriceOne: true, Dts: []int64{1, 6, 12}, Depth: 6},
 		}
 	}
@@ -802,6 +851,15 @@ func configs(quick bool) []Cfg {
 		out = append(out, Cfg{Name: fmt.Sprintf("feeds-reorder-p%d", ph), Vals: []int{0}, PreAct: []int{0}, PrePrice: []int{0}, InitVote: 5, Votes: []int{6, 4}, Phase: ph, Exp: 2, MaxIv: 24,
 			MaxVote: 2, MaxPrice: 3, PriceOne: true, Dts: []int64{0, 1, 3, 6, 12}, Depth: 8})
 	}
+	// sub-second block times: oracle clock (penalty 2 s and 1 s) and feeds clock
+	out = append(out,
+		Cfg{Name: "penalty-subsecond-2s", Vals: []int{0}, PreAct: []int{0}, InitVote: 0, Phase: 0, Exp: 1, Penalty: 2, BaseMs: 900, MaxReq: 2,
+			Dts: []int64{0, 1, 2}, DtsMs: []int64{100, 500}, Depth: 8},
+		Cfg{Name: "penalty-subsecond-1s", Vals: []int{0, 1}, PreAct: []int{0}, InitVote: 0, Phase: 1, Exp: 2, Penalty: 1, BaseMs: 300, MaxReq: 1,
+			Dts: []int64{1}, DtsMs: []int64{300, 700}, Depth: 8},
+		Cfg{Name: "feeds-subsecond", Vals: []int{0}, PreAct: []int{0}, InitVote: 2, Votes: []int{1}, Phase: 1, Exp: 2, Penalty: 3, BaseMs: 900, MaxVote: 1, MaxPrice: 2,
+			Dts: []int64{0, 3, 6}, DtsMs: []int64{500}, Depth: 8},
+	)
 	for _, exp := range []uint64{1, 2, 3} {
 		out = append(out, Cfg{Name: fmt.Sprintf("oracle-exp%d", exp), Vals: []int{0, 1}, InitVote: 0, Phase: 0, Exp: exp, MaxReq: 3, Dts: []int64{0, 1, 3, 10}, Depth: 8})
 		out = append(out, Cfg{Name: fmt.Sprintf("oracle-exp%d-preact", exp), Vals: []int{0, 1}, PreAct: []int{0, 1}, InitVote: 0, Phase: 1, Exp: exp, MaxReq: 3, Dts: []int64{0, 1, 3, 10}, Depth: 8})
@@ -819,14 +877,15 @@ func init() {
 	engine.Register(&engine.Check{
 		ID: "C15",
 		Run: func(r *engine.Run) {
-			r.Bound = "3 bonded validators (1-2 acted on); events Activate(v), RequestData(ask = all active, min 1), ReportData(id,v), SubmitSignalPrices(v, all | first current feed), Vote from a 5-entry menu (feed list {}, {A/12s}, {A/6s}, {A/12s,B/6s}, {B/12s}; plus a configuration with max interval 24 s whose vote swaps the power ranking of two feeds [B/8s,A/12s] -> [A/8s,B/12s] after prices for both were submitted) taking effect at the next update block, Block(dh=1, dt in {0,1,3,6,10,12} s); grace 6 s, intervals 6/12 s, penalty 10 s, feed update every 4 blocks, expiration 1-3 blocks; base states 0-3 blocks after an update, validators fresh or pre-activated; depth 6-7 (quick) / 8-9 (thorough)"
+			r.Bound = "3 bonded validators (1-2 acted on); events Activate(v), RequestData(ask = all active, min 1), ReportData(id,v), SubmitSignalPrices(v, all | first current feed), Vote from a 5-entry menu (feed list {}, {A/12s}, {A/6s}, {A/12s,B/6s}, {B/12s}; plus a configuration with max interval 24 s whose vote swaps the power ranking of two feeds [B/8s,A/12s] -> [A/8s,B/12s] after prices for both were submitted) taking effect at the next update block, Block(dh=1, dt in {0,1,3,6,10,12} s; configurations with block times off the whole second: base at x.9 s, dt in {1 s, 2 s, 500 ms}, penalty 2 s); grace 6 s, intervals 6/12 s, penalty 10 s, feed update every 4 blocks, expiration 1-3 blocks; base states 0-3 blocks after an update, validators fresh or pre-activated; depth 6-7 (quick) / 8-9 (thorough)"
 			r.Assumptions = []string{
 				"committee of a request (RequestedValidators) and acceptance of reports / price submissions are taken as given (C09, C01, C06); the reference records a report or a price iff the transaction succeeded",
 				"the statement is one-directional: only 'deactivated => genuine miss', 'activate accepted => inactive and penalty elapsed', 'active => activated by message' and 'status changes only by MsgActivate or in a block end' are asserted; a genuine miss that does not deactivate, or a permitted MsgActivate that is refused, is only recorded (labels genuine-miss-not-deactivated:*, act:rejected-although-permitted:*)",
 				"'active before the request was made' is read on block timestamps as since < request time (equal timestamps do not count as before); 'grace period is over' as now > start+grace; 'no sufficiently recent price' as now > price time + interval; block-height fallback = grace/3 resp. interval/3 blocks (x/feeds/types/constant.go MaxGuaranteeBlockTime)",
 				"at an update block a miss may be judged against the outgoing or the incoming feed list (the order is not fixed by the statement)",
 				"a price submitted for a signal is forgotten by the reference when that signal leaves the current feed list (the lenient reading; the chain keeps it until the validator's next submission)",
-				"block times are whole seconds; dh = 1 for every block; Tx seam = ValidateBasic + message-router handler in a cache context (ante chain not executed)",
+				"the reference keeps every time (activation, deactivation, request, price, update) in full nanosecond precision; the chain's whole-second stamps (feed-list update, price timestamps, request time) are never later than those, which only makes the chain more lenient than the reference",
+				"block times are whole seconds except in the *-subsecond configurations; dh = 1 for every block; Tx seam = ValidateBasic + message-router handler in a cache context (ante chain not executed)",
 			}
 			r.Required = required(r.Quick())
 			// the wall-clock cap is shared: every configuration gets an equal slice of what is left, so
@@ -860,6 +919,8 @@ func required(quick bool) []string {
 		// its end), accepted after it (also exactly at its end)
 		"act:ok:first", "act:oracle/16", "act:oracle/17", "act:rejected:one-second-before-penalty-end",
 		"act:ok:after-penalty", "act:ok:exactly-at-penalty-end",
+		// ... and refused when only the whole unix seconds, not the full time, have elapsed (sub-second block times)
+		"act:rejected:less-than-a-second-before-penalty-end",
 		// both kinds of genuine miss, and every protecting clause observed alone (boundary cases)
 		"deactivated:oracle", "deactivated:feeds", "deactivated:feeds:no-price", "deactivated:feeds:stale-price",
 		"spared:oracle:reported", "spared:oracle:active-since-not-before-request",
